@@ -44,7 +44,7 @@ VARIABLES cfg,      \* bucket + dispatcher configuration of the case (record, se
           fl,       \* worker -> entry in flight (claimed, not yet finished) or NoFl
           own,      \* worker -> its current claim-owner identity (changes on restart)
           nown,     \* next fresh owner identity
-          crashes   \* number of worker crashes so far
+          crashes   \* number of disturbances so far (worker crashes, publishes outlasting the lease)
 
 vars == <<cfg, entry, tx, muts, now, script, fl, own, nown, crashes>>
 
@@ -280,12 +280,17 @@ Crash(w) ==
 \* time passes to the next instant at which something becomes claimable
 TimePoints == {entry[id].nextAt : id \in {i \in Ids : Pending(i)}}
               \cup {entry[id].until : id \in {i \in Ids : Pending(i) /\ entry[i].owner # 0}}
-AdvanceTo(t) ==
-  /\ t > now /\ now' = t
-  /\ UNCHANGED <<entry, script, fl, own, nown, crashes>> /\ Frame(MutVars)
-AdvanceNext ==
-  /\ \E t \in TimePoints : t > now
-  /\ AdvanceTo(Min({t \in TimePoints : t > now}))
+Tick(t, cost) ==
+  /\ t > now /\ now' = t /\ crashes' = crashes + cost
+  /\ UNCHANGED <<entry, script, fl, own, nown>> /\ Frame(MutVars)
+AdvanceTo(t) == Tick(t, 0)
+NextTime == Min({t \in TimePoints : t > now})
+InFlight == \E w \in Workers : fl[w] # NoFl
+\* time passes while no publish is in flight ...
+AdvanceQuiet == ~InFlight /\ (\E t \in TimePoints : t > now) /\ Tick(NextTime, 0)
+\* ... or a publish outlasts its lease (a disturbance like a crash: the entry can be
+\* taken over by another worker while the slow one still believes it owns it)
+AdvanceSlow == InFlight /\ (\E t \in TimePoints : t > now) /\ Tick(NextTime, 1)
 
 \* ------------------------------------------------- bounded model (TLC, MC)
 CONSTANTS MCMaxAttempts,   \* set of MaxAttempts values explored
@@ -293,7 +298,7 @@ CONSTANTS MCMaxAttempts,   \* set of MaxAttempts values explored
           MaxMut,          \* number of mutations
           MCFaults,        \* fault placements explored
           ScriptAlphabet, MaxScript,   \* publisher scripts: sequences over the alphabet up to this length
-          MaxCrash         \* spontaneous worker crashes
+          MaxCrash         \* disturbances: spontaneous worker crashes + publishes outlasting their lease
 
 KImgJpg == <<"img/", "a", ".jpg">>
 KDocTxt == <<"doc/", "a", ".txt">>
@@ -326,11 +331,12 @@ Next ==
   \/ \E m \in MCMuts, f \in MCFaults : Len(muts) < MaxMut /\ BeginTx(m, f)
   \/ TxStep
   \/ \E w \in Workers : DispStep(w)
-  \/ AdvanceNext
+  \/ AdvanceQuiet
+  \/ (crashes < MaxCrash /\ AdvanceSlow)
 
 Fair ==
   /\ WF_vars(TxStep)
-  /\ WF_vars(AdvanceNext)
+  /\ WF_vars(AdvanceQuiet)
   /\ \A w \in Workers :
        /\ WF_vars(\E id \in Ids : Claim(w, id))
        /\ WF_vars(Publish(w))
